@@ -4391,7 +4391,14 @@ def AlignedStruct(modulus, *subcons, **subconskw):
         b'\xff\x00\x00\x00\xff\xff\x00\x00'
     """
     subcons = list(subcons) + list(k/v for k,v in subconskw.items())
-    return Struct(*[sc.name / Aligned(modulus, sc) for sc in subcons])
+    members = []
+    for sc in subcons:
+        inner = sc
+        while isinstance(inner, Renamed):
+            inner = inner.subcon
+        # the name (docs, parsed hook) goes around the alignment once, so error paths list the member once
+        members.append(Renamed(Aligned(modulus, inner), sc.name, sc.docs, sc.parsed))
+    return Struct(*members)
 
 
 def BitStruct(*subcons, **subconskw):
